@@ -168,6 +168,53 @@ def run(ctx):
             seen.add(key)
             ctx.violation(key, f"history {h['spec']} -> results differ for {badkeys} "
                                f"{[x.get('exc') for x in h['runs'] if x.get('exc')]}", {"history": h["spec"]})
+    # ---- stage traces (tla/Pipeline.tla): an in-process history, every call recorded stage by stage -------------------
+    from .. import pipeline, runner
+    seq = [("m", []), ("c", ["-d"]), ("a", []), ("m", []), ("c", ["-d"]), ("u", []), ("a", []), ("c", [])]
+    if ctx.thorough():
+        seq = seq + [("m", ["-c", "A"]), ("c", ["-i", "A:25,B:25"]), ("m", ["-c", "A"]), ("u", []), ("c", ["-i", "A:25,B:25"])]
+    with pipeline.recording() as ev:
+        for cid, opts in seq:
+            runner.run(texts[cid], ["-q"] + opts)
+            ctx.count()
+    r = tlc.run("MC_Pipeline", "MC_Pipeline.cfg", timeout=600)
+    ctx.add_tlc(r, "stage machine: loops are barriers, average after every conformation, counts frozen")
+    if not r.ok:
+        raise tlc.TLCError("spec-level failure in MC_Pipeline:\n" + r.stdout[-3000:])
+    traces = pipeline.split_runs(ev)
+    # binding self-test: a corrupted field, a removed event and a swapped stage order must be rejected
+    if traces and len(traces[0]) > 6:
+        t0 = traces[0]
+        c1 = [dict(e, dirty=1) if e["ev"] == "Score" else e for e in t0]
+        c2 = [e for e in t0 if e["ev"] != "Sort"]
+        k = next(i for i, e in enumerate(t0) if e["ev"] == "Average")
+        c3 = t0[:k - 1] + [t0[k], t0[k - 1]] + t0[k + 1:]
+        rej, _inc = pipeline.validate(ctx, [c1, c2, c3], "binding self-test: corrupted traces")
+        ctx.traces -= 3
+        ctx.extra["stage_trace_selftest_rejected"] = sorted(rej) == [0, 1, 2]
+        if sorted(rej) != [0, 1, 2]:
+            raise tlc.TLCError(f"binding self-test failed: corrupted stage traces accepted ({rej})")
+    rejected, incomplete = pipeline.validate(ctx, traces, "stage traces of an in-process history")
+    ctx.extra["stage_traces"] = {"runs": len(traces), "events": sum(len(t) for t in traces), "rejected": len(rejected),
+                                 "incomplete": len(incomplete)}
+    for i, at in sorted(rejected.items()):
+        ctx.note(f"BEYOND-PROPERTIES: stage trace of call {seq[i] if i < len(seq) else i} is not a behaviour of Pipeline: "
+                 f"rejected at event {at}: {traces[i][at - 1] if 0 < at <= len(traces[i]) else '?'}")
+    if len(traces) == len(seq):
+        first = {}
+        for i, (cid, opts) in enumerate(seq):
+            k = (cid, tuple(opts))
+            if k in first and traces[first[k]] != traces[i]:
+                diff = next((j for j, (x, y) in enumerate(zip(traces[first[k]], traces[i])) if x != y), min(len(traces[first[k]]), len(traces[i])))
+                ctx.violation(f"history:stage-trace-differs:{' '.join(opts) or 'default'}",
+                              f"call {i} repeats call {first[k]} ({cid} {opts}) but its stage trace differs from event {diff + 1}: "
+                              f"{traces[first[k]][diff:diff + 1]} vs {traces[i][diff:diff + 1]}",
+                              {"history": {"inprocess": [[c_, o_] for c_, o_ in seq[: i + 1]]}})
+            first.setdefault(k, i)
+    else:
+        ctx.note(f"stage traces: {len(traces)} traces for {len(seq)} calls (a call failed before reading)")
+    if traces:
+        ctx.sample({"stage_trace": traces[0][:6]})
     if hist:
         ctx.sample(hist[0]["spec"])
     ctx.extra["histories_executed"] = len(hist)
